@@ -218,6 +218,24 @@ theorem isUpToDate_effect (t : Task) (now : Nat) (s : State) :
     rw [this]
     exact ⟨rfl, rfl, fun x _ => rfl, fun h => absurd h hncs, fun _ => rfl⟩
 
+/-- what the start of a `--force` run (F8F) does to the checksum store and the log: like the check of a
+normal run, or — when that check ends in an error — nothing -/
+theorem forceStart_effect (t : Task) (e : Env) (s : State) :
+    (forceStart H pr t e s).log = s.log ∧ (forceStart H pr t e s).files = s.files ∧
+    (∀ x, (Cs t → x ≠ sumKey t) → aget (forceStart H pr t e s).sums x = aget s.sums x) ∧
+    (Cs t → aget (forceStart H pr t e s).sums (sumKey t) = some (fpNow H pr t s.files) ∨
+            aget (forceStart H pr t e s).sums (sumKey t) = aget s.sums (sumKey t)) := by
+  unfold forceStart
+  split
+  · exact ⟨rfl, rfl, fun _ _ => rfl, fun _ => Or.inr rfl⟩
+  · obtain ⟨h1, h2, h3, h4, _⟩ := isUpToDate_effect H pr t e.now s
+    exact ⟨h1, h2, h3, fun hcs => Or.inl (h4 hcs)⟩
+
+/-- for a timestamp task the check never ends in an error -/
+theorem forceStart_ts {t : Task} (h : t.method = .timestamp) (e : Env) (s : State) :
+    forceStart H pr t e s = (isUpToDate H pr t false e.now s).1 := by
+  simp [forceStart, checkErr_timestamp e s.files h]
+
 theorem applyOp_fields (o : Op) (s : State) :
     (applyOp pr o s).sums = s.sums ∧ (applyOp pr o s).log = s.log ∧ (applyOp pr o s).marks = s.marks := by
   cases o <;> simp only [applyOp] <;> (try split) <;> simp
